@@ -290,6 +290,34 @@ Proof.
   intros r Hok h s0 orc fuel tr. apply must_def_sound; auto. apply history_keeps_config; auto.
 Qed.
 
+(* the target operation itself consists of many match attempts on the same rule object (one per node
+   of the model, each with its own oracle); what each of them computes is the same after any history *)
+Fixpoint run_target (r : rule) (ms : list (oracle * nat * trace)) (s : state) : list (outcome * option outcome * trace) :=
+  match ms with
+  | [] => []
+  | (orc, fuel, tr) :: rest =>
+      let res := run_match orc fuel (r_check r) (r_rewrite r) s tr in
+      observable res :: run_target r rest (snd res)
+  end.
+
+Lemma run_target_agree : forall r, rule_ok r = true ->
+  forall ms s1 s2, agree (r_config r) s1 s2 -> run_target r ms s1 = run_target r ms s2.
+Proof.
+  intros r Hok. induction ms as [|[[orc fuel] tr] rest IH]; intros s1 s2 Hag; cbn; auto.
+  f_equal; [now apply must_def_sound|].
+  apply IH. intros f Hf.
+  pose proof (run_match_keeps_config r Hok orc fuel s1 tr f Hf) as A1.
+  pose proof (run_match_keeps_config r Hok orc fuel s2 tr f Hf) as A2.
+  destruct (run_match orc fuel (r_check r) (r_rewrite r) s1 tr) as [[[o1 p1] t1] s1'].
+  destruct (run_match orc fuel (r_check r) (r_rewrite r) s2 tr) as [[[o2 p2] t2] s2'].
+  cbn. rewrite A1, A2. now apply Hag.
+Qed.
+
+Theorem target_history_independent : forall r, rule_ok r = true ->
+  forall (h ms : list (oracle * nat * trace)) (s0 : state),
+    run_target r ms (run_history r h s0) = run_target r ms s0.
+Proof. intros r Hok h ms s0. apply run_target_agree; auto. apply history_keeps_config; auto. Qed.
+
 (* every rule of a list that passes the computed check *)
 Theorem all_rules_history_independent : forall rules, forallb rule_ok rules = true ->
   forall r, In r rules ->
